@@ -69,7 +69,12 @@ def _expect(node, base):
 
 def _shape(var):
     if isinstance(var, V.Array):
-        return ("array", _shape(generate(var.item_decriptor)))
+        # every element of an open list is generated from the same description (append / set / decode): the second element
+        # must have the shape of the first
+        first = _shape(generate(var.item_decriptor))
+        if _shape(generate(var.item_decriptor)) != first:
+            return ("array", ("second element differs from the first", first))
+        return ("array", first)
     if isinstance(var, V.List):
         return ("record", [(k, _shape(v)) for k, v in var.data.items()])
     return ("item", type(var).__name__)
@@ -240,7 +245,7 @@ OBLIGATIONS = [
          parts={"quick": ["tree == %d and base == %d and g2 == 0" % (i, (3 * i) % 8) for i in range(11) if i != 6 or not _open("C19-named-open-list")],
                 "thorough": ["tree == %d and base == %d" % (i, b) for i in range(11) for b in range(8) if i != 6 or not _open("C19-named-open-list")]},
          functions=["variables.functions.generate/_generate_from_sfdl/_generate_item_from_sfdl", "SFDLTokenizer.parse_all/_process_tokens",
-                    "List._generate key derivation", "Array.__init__ naming"],
+                    "List._generate key derivation", "Array.__init__ naming", "generation of a second element from Array.item_decriptor"],
          bounds="11 definition trees from the documented grammar (items, open arrays, records, nesting depth <= 5, named and unnamed "
                 "nested lists), item names rotated through 8 catalogue names (symbolic base), three gap choices out of 10 gap texts "
                 "(whitespace incl. tab/CR/LF, comments with arbitrary content incl. brackets and item names, closed by LF or CR) at "
